@@ -1,5 +1,6 @@
 import LachesisVerif.Proofs.ProcessorOrder
 import LachesisVerif.Proofs.ProcessorInv
+import LachesisVerif.Proofs.ProcessorRel
 /-!
 # C15 — Event processor releases every event and balances its semaphore
 
@@ -158,25 +159,92 @@ theorem C15_semaphore_balanced_partial (cfg : Cfg) (O : Oracle) (capNum capSize 
   obtain ⟨b1, b2⟩ := hbal
   omega
 
-/-- **Released exactly once by the time the processor is stopped** (*partial*). Full statement: every
-    event of every fully handled batch has exactly one `Released`. Proved, for every operation sequence
-    ending in `Stop`: (i) every copy that reached the ordering buffer — processed, failed, duplicate,
-    already connected or spilled — has exactly one `Released` in the buffer's trace, none has two, and
-    the buffer is empty (C14 applied to the buffer embedded in the processor; `Stop` clears it);
-    (ii) an event that does not reach the buffer (rejected: `C15_rejected_never_processed`, too far ahead:
-    `C15_far_future_never_processed`) gets its single `Released` inside `process()`.
-    Missing: the statement per enqueued event on the processor-level trace (that each event of a
-    finished batch is handled exactly once is `C15_ordered_batch_in_order` for ordered batches and
-    immediate for unordered ones; the tie between tags and buffer copies is by the stream `proc`). -/
-theorem C15_released_exactly_once_partial (cfg : Cfg) (O : Oracle) (capNum capSize highest : Nat) (conn : List Nat)
+/-- Unordered batches: every arriving result is handled at once, so the events are handed to `process()`
+    in arrival order, each exactly once, and the batch finishes with the last result. -/
+theorem C15_unordered_batch_each_once {σ : Type} (hd : σ → Item → Nat → σ × List Nat) (id : Nat)
+    (items : List Item) (errs : Nat → Nat) (perm : List Nat) (hperm : perm.Perm (List.range items.length)) (s0 : σ) :
+    let r := drain hd (Batch.new id false items) s0 (perm.map fun pos => (pos, errs pos))
+    r.2 = perm.foldl (fun s pos => match items[pos]? with
+      | some it => (hd s it (errs pos)).1
+      | none => s) s0 ∧ r.1.processed = items.length ∧ r.1.finished = true := by
+  have key : ∀ (L : List Nat) (b : Batch) (s : σ), b.ordered = false → b.items = items →
+      b.processed + L.length ≤ items.length → (∀ pos ∈ L, pos < items.length) →
+      (drain hd b s (L.map fun pos => (pos, errs pos))).2 = L.foldl (fun s pos => match items[pos]? with
+        | some it => (hd s it (errs pos)).1
+        | none => s) s ∧
+      (drain hd b s (L.map fun pos => (pos, errs pos))).1.processed = b.processed + L.length ∧
+      (drain hd b s (L.map fun pos => (pos, errs pos))).1.items = items := by
+    intro L
+    induction L with
+    | nil => intro b s _ hi _ _; exact ⟨rfl, rfl, hi⟩
+    | cons pos L ih =>
+      intro b s ho hi hle hpos
+      have hp : pos < items.length := hpos pos List.mem_cons_self
+      have hlt : b.processed < items.length := by simp only [List.length_cons] at hle; omega
+      have hcons : consume hd b s pos (errs pos) =
+          ({ b with processed := b.processed + 1, toRequest := b.toRequest ++ (hd s (items[pos]'hp) (errs pos)).2 },
+           (hd s (items[pos]'hp) (errs pos)).1) := by
+        unfold consume
+        have hloop : Gen.Buffer.batchLoop b.processed b.items.length = true := by
+          unfold Gen.Buffer.batchLoop; rw [hi]; simp [hlt]
+        have hit : b.items[pos]? = some (items[pos]'hp) := by rw [hi]; exact List.getElem?_eq_getElem hp
+        simp only [hloop, Bool.not_true, Bool.false_eq_true, if_false, ho, hit]
+      have hdrain : drain hd b s ((pos :: L).map fun pos => (pos, errs pos)) =
+          drain hd { b with processed := b.processed + 1, toRequest := b.toRequest ++ (hd s (items[pos]'hp) (errs pos)).2 }
+            (hd s (items[pos]'hp) (errs pos)).1 (L.map fun pos => (pos, errs pos)) := by
+        simp only [List.map_cons]
+        rw [drain, hcons]
+      rw [hdrain]
+      obtain ⟨a, b', c⟩ := ih { b with processed := b.processed + 1, toRequest := b.toRequest ++ (hd s (items[pos]'hp) (errs pos)).2 }
+        (hd s (items[pos]'hp) (errs pos)).1 ho hi
+        (by show b.processed + 1 + L.length ≤ items.length; simp only [List.length_cons] at hle; omega)
+        (fun q hq => hpos q (List.mem_cons_of_mem _ hq))
+      refine ⟨?_, ?_, c⟩
+      · rw [a, List.foldl_cons, List.getElem?_eq_getElem hp]
+      · rw [b']; show b.processed + 1 + L.length = _; simp only [List.length_cons]; omega
+  have hlen : perm.length = items.length := by rw [List.Perm.length_eq hperm, List.length_range]
+  obtain ⟨a, b, c⟩ := key perm (Batch.new id false items) s0 rfl rfl (by show 0 + perm.length ≤ _; omega)
+    (fun pos hp => List.mem_range.1 ((List.Perm.mem_iff hperm).1 hp))
+  refine ⟨a, by rw [b]; show 0 + perm.length = _; omega, ?_⟩
+  unfold Batch.finished Gen.Buffer.batchLoop
+  rw [b, c]
+  show (!decide (0 + perm.length < items.length)) = true
+  simp [hlen]
+
+/-- Before `Stop`, no event is reported released more often than `process()` was called for it
+    (`handled` is the log of these calls, kept by `handle`): the difference are the copies of it that
+    still wait in the ordering buffer. -/
+theorem C15_released_at_most_once (cfg : Cfg) (O : Oracle) (capNum capSize highest : Nat) (conn : List Nat)
+    (ops : List POp) :
+    let p := prun O (Proc.init cfg capNum capSize highest conn) ops
+    ∀ tg, cRel tg p.st.trace + C14.unrelTag p.st.buf tg = p.st.handled.count tg := by
+  intro p tg
+  have h0 : RelInv conn (Proc.init cfg capNum capSize highest conn).cfg (Proc.init cfg capNum capSize highest conn).st :=
+    ⟨⟨C14.good_init conn, C14.lim_init _ _ conn⟩, fun _ => rfl⟩
+  exact (prun_relInv conn O ops _ h0).2 tg
+
+/-- **Released exactly once by the time the processor is stopped.** For every sequence of `Enqueue`s,
+    arrivals of check results (any order, any interleaving between batches) and a final `Stop`, every
+    oracle and all limits: each event is reported released exactly as many times as `process()` was
+    called for it — whether it was processed, rejected by a check, dropped as too far ahead, a duplicate,
+    already connected, or spilled (by a later push or by `Stop`'s `Clear`). For the events of a batch whose
+    inserter task ran to completion `process()` is called exactly once each
+    (`C15_ordered_batch_in_order`, `C15_unordered_batch_each_once`), hence exactly one `Released`.
+    Also: every copy that reached the ordering buffer has exactly one `Released` in the buffer's own
+    trace, and the buffer is empty. (`n < 2^32`: the number of events that reached the buffer fits
+    `idx.Event`.) -/
+theorem C15_released_exactly_once (cfg : Cfg) (O : Oracle) (capNum capSize highest : Nat) (conn : List Nat)
     (ops : List POp) :
     let p := prun O (Proc.init cfg capNum capSize highest conn) (ops ++ [POp.stop])
     p.st.buf.n < 4294967296 →
+      (∀ tg, cRel tg p.st.trace = p.st.handled.count tg) ∧
       allReleased p.st.buf.n p.st.buf.trace = true ∧ relOk p.st.buf.trace = true ∧ p.st.buf.inc = [] := by
   intro p hn
-  have h0 : BufInv conn (Proc.init cfg capNum capSize highest conn).cfg (Proc.init cfg capNum capSize highest conn).st :=
-    ⟨C14.good_init conn, C14.lim_init _ _ conn⟩
-  have hb := prun_bufInv conn O ops _ h0
+  have h0 : RelInv conn (Proc.init cfg capNum capSize highest conn).cfg (Proc.init cfg capNum capSize highest conn).st :=
+    ⟨⟨C14.good_init conn, C14.lim_init _ _ conn⟩, fun _ => rfl⟩
+  have hr := prun_relInv conn O (ops ++ [POp.stop]) _ h0
+  have hr' : RelInv conn p.cfg p.st := hr
+  have hb := prun_bufInv conn O ops _ h0.1
   have hp : p = stop (prun O (Proc.init cfg capNum capSize highest conn) ops) := by
     show prun O _ (ops ++ [POp.stop]) = _
     unfold prun
@@ -189,15 +257,19 @@ theorem C15_released_exactly_once_partial (cfg : Cfg) (O : Oracle) (capNum capSi
   rw [← hbuf] at a b e
   have hempty := e (by rw [← b]; exact hn)
   have a' : C14.Inv conn p.st.buf.n p.st.buf := a
-  refine ⟨?_, a'.relOk, hempty⟩
-  unfold allReleased
-  rw [List.all_eq_true]
-  intro c hc
-  have hc' : c < p.st.buf.n := List.mem_range.1 hc
-  cases hr : (p.st.buf.recs c).released
-  · have := a'.buffered c hc' (Nat.ne_of_lt hc') hr
-    rw [hempty] at this; cases this
-  · rw [a'.relsync c, hr]; rfl
+  refine ⟨?_, ?_, a'.relOk, hempty⟩
+  · intro tg
+    have := hr'.2 tg
+    rw [unrelTag_zero_of_empty a hempty tg] at this
+    omega
+  · unfold allReleased
+    rw [List.all_eq_true]
+    intro c hc
+    have hc' : c < p.st.buf.n := List.mem_range.1 hc
+    cases hrl : (p.st.buf.recs c).released
+    · have := a'.buffered c hc' (Nat.ne_of_lt hc') hrl
+      rw [hempty] at this; cases this
+    · rw [a'.relsync c, hrl]; rfl
 
 /-! ### non-vacuity: two batches (the second ordered, results arriving in reverse), a rejected event,
     a far-future event, a buffered event spilled by `Stop`; the semaphore ends at zero -/
@@ -209,7 +281,8 @@ def exRun : Proc := prun Oracle.allOk (Proc.init ⟨3, 1000⟩ 10 1000 0 [])
   [.enq 0 false [exB, exA], .enq 1 true [exC, exD], .deliver 1 1 0, .deliver 0 0 6, .deliver 0 1 0,
    .deliver 1 0 0, .stop]
 example : exRun.st.sem.num = 0 ∧ exRun.st.sem.size = 0 ∧ exRun.st.relNum = 4 ∧ exRun.st.acqNum = 4 ∧
-    exRun.st.warned = false ∧ exRun.st.buf.inc = [] ∧ exRun.st.buf.n = 2 := by
+    exRun.st.warned = false ∧ exRun.st.buf.inc = [] ∧ exRun.st.buf.n = 2 ∧ exRun.st.handled = [3, 2, 0, 1] ∧
+    cRel 2 exRun.st.trace = 1 := by
   decide
 
 end C15
